@@ -38,6 +38,10 @@ def run(ck, ctx):
     RL.final_value(ck, ctx, "final")
     RL.run_false_stops(ck, ctx, "exit")
     RL.exit_status(ck, ctx, "exit")
+    # "non-zero whenever a command failed": after a failure with nothing left to run, Work::run reaches its epilogue (and so the exit
+    # status) instead of spinning or hitting the internal-error panic
+    from . import C06 as R06
+    R06.loop_shape(ck, ctx)
     # Failed is terminal: the site relation has no edge out of Failed / Done
     R01.sites(ck, ctx)
     rel = ck.extra.get("transition_relation", [])
